@@ -72,7 +72,27 @@ def cases(tier, salts):
                                 for pat in itertools.product(range(len(PATTERNS)), repeat=n):
                                     out.append({"n": n, "g": list(g), "sc": sc, "H": fam, "delta": dl, "pat": list(pat),
                                                 "xo": xo, "salt": salt})
-    return out + wide_cases(tier, salts)
+    return out + wide_cases(tier, salts) + path_cases(tier, salts)
+
+
+def path_cases(tier, salts):
+    """The frozen iteration-path bank (vf/banks/trsbox_paths.json, built by tools/build_pathbank.py from a deterministic
+    candidate stream by keeping the candidates that add a new iteration event / ordered pair of iteration events of the CG
+    and boundary loops): explicit small-integer instances, n = 2..6, all H kinds.  Every member is run on every salt in
+    use (the salt perturbs g and H by a factor 1 + 0.01 salt, which moves the paths slightly)."""
+    import json
+    import os
+    p = os.path.join(os.path.dirname(os.path.dirname(os.path.abspath(__file__))), "banks", "trsbox_paths.json")
+    with open(p) as f:
+        bank = json.load(f)["cases"]
+    out = []
+    for salt in salts:
+        for c in bank:
+            c = dict(c)
+            c["salt"] = salt
+            c["pathbank"] = True
+            out.append(c)
+    return out
 
 
 def wide_cases(tier, salts):
@@ -109,6 +129,11 @@ def wide_cases(tier, salts):
 
 def build(case):
     n = case["n"]
+    if case.get("explicit"):
+        f = 1.0 + 0.01 * case.get("salt", 0)
+        return (np.array(case["xopt"], dtype=float), np.array(case["g"], dtype=float) * f,
+                np.array(case["H"], dtype=float).reshape(n, n) * f, np.array(case["sl"], dtype=float),
+                np.array(case["su"], dtype=float), float(case["delta"]))
     g = np.array(case["g"]) * case["sc"]
     H = make_H(case["H"], n, case["salt"]) * (case["sc"] if case["H"] != "zero" else 1.0)
     delta = case["delta"]
@@ -197,7 +222,7 @@ def check_case(case):
 
 
 def classify(case, clause, detail):
-    return {"H": case["H"], "n": case["n"]}
+    return {"H": case.get("Hkind", case["H"]) if case.get("explicit") else case["H"], "n": case["n"]}
 
 
 def run(report, tier, seed):
@@ -212,8 +237,34 @@ def run(report, tier, seed):
                    "current point; non-trivial = cases in which the Cauchy decrease is non-zero (the step is not forced to 0)")
     cov["distinct_nontrivial"] = int(tags.get("cauchy_nonzero", 0))
     cov["salts"] = salts
+    path_report(report)
     report.assumptions += ["n<=3 (quick) / n<=4 (thorough; property quantifies to n=8); data from fixed families", "Python "
                            "kernels only (the optional Fortran trustregion package is not installed)"]
+
+
+def path_report(report):
+    """Re-trace the frozen path bank on the tree under test and report the iteration-path items it covers (reporting
+    only: items are comparable with the recorded number only while the kernel's source text is the recorded one)."""
+    import json
+    import os
+    from .. import pathcov
+    p = os.path.join(os.path.dirname(os.path.dirname(os.path.abspath(__file__))), "banks", "trsbox_paths.json")
+    with open(p) as f:
+        bank = json.load(f)
+    cs = bank["cases"]
+    items = set()
+    for part in common.pool_map(pathcov.trace_bank, [cs[i:i + 100] for i in range(0, len(cs), 100)]):
+        items |= set(part)
+    kinds = {"iteration_events": 0, "ordered_pairs_same_loop": 0, "handovers": 0}
+    for t in items:
+        kinds[{"1": "iteration_events", "p": "ordered_pairs_same_loop", "c": "handovers"}.get(t[0], "iteration_events")] += 1
+    same = pathcov.source_sha() == bank.get("source_sha")
+    report.coverage["path_bank"] = {"cases": len(cs), "built_from_candidates": bank["built_from_candidates"],
+                                    "items_recorded": bank["items"], "items_covered_now": len(items), "by_kind": kinds,
+                                    "kernel_source_is_the_recorded_one": same}
+    if same and len(items) < bank["items"]:
+        raise common.HarnessError("C12 path bank covers %d iteration-path items, %d were recorded for this source text"
+                                  % (len(items), bank["items"]))
 
 
 def replay(rep):
